@@ -7,6 +7,8 @@ E4  conditionally executed children are lowered on private copies of the environ
 E5  Env stores values; nothing outside env.rs reaches into it mutably
 E6  for-each bodies are lowered on the one shared environment, in order
 E7  call arguments are lowered before any parameter of the callee is bound (by-value, caller's scope)
+E8  mux_envs re-creates every scope and re-binds every binding as a fresh vector of push_mux(condition, a[i], b[i]);
+    no scope or binding can be skipped and the result's storage is never written directly
 """
 from .. import mir, protocol
 from ..core import AnchorMissing, Finding, RuleResult
@@ -24,7 +26,9 @@ LEVEL_TEXT = (
     "on a private clone of the environment, that the environment at exit contains the effects of every child (nothing "
     "lost) but none of them unconditionally, that then/else never share a merge operand, that each match clause starts "
     "from a fresh clone, and that the environment is merged under the same condition wire as the panic record; for-each "
-    "bodies use the one shared environment; call arguments are all lowered before any parameter of the callee is bound (E7). Not decided: the then/else operand order of mux_envs, and the mux tree of "
+    "bodies use the one shared environment; call arguments are all lowered before any parameter of the callee is bound (E7); mux_envs itself re-creates every scope and "
+    "re-binds every binding as a fresh vector of push_mux(condition, bit of a, bit of b), no iteration can skip that, and nothing outside "
+    "env.rs writes the storage of an Env (E8, E5). Not decided: the then/else operand order of mux_envs, and the mux tree of "
     "indexed assignment (value level, belongs to C01).")
 LEVEL_NOTE = ("Trusted: rustc MIR and callee resolution; callee lowering functions obey the same protocol (each is "
               "analysed itself). The type checker checks function bodies in a fresh environment (C17), which is what makes "
@@ -344,9 +348,6 @@ def rule_e5(ctx):
                     continue
                 if f["id"] == MUX_ENVS and not is_write:
                     continue
-                if f["id"] == MUX_ENVS and is_write and pl["l"] not in range(1, body.arg_count + 1):
-                    # building the fresh result Env
-                    continue
                 res.bad(Finding("E5", f["id"], "Env storage touched outside env.rs", "Env.0 is %s here" % ("written" if is_write else "read"), sp))
     # API: nothing hands out a mutable reference into an Env; get returns an owned value
     for f in ctx.facts["fns"]:
@@ -382,6 +383,94 @@ def _place_ty(body, pre):
                 t = t[1:].lstrip()
         return t
     return None
+
+
+def rule_e8(ctx):
+    """mux_envs merges every binding of every scope, bit by bit, under the condition."""
+    res = RuleResult("E8", "mux_envs: every scope is re-created and every binding of it is a bitwise mux(condition, a, b)")
+    body = ctx.body(MUX_ENVS)
+    lets = [(b, t) for b, t in body.calls() if mir.callee(t) == ENV_LET]
+    pushes = [(b, t) for b, t in body.calls() if mir.callee(t) == ENV_PUSH]
+    if not lets or len(pushes) != 1:
+        raise AnchorMissing("E8: expected one Env::push and a let_in_current_scope in mux_envs (%d, %d)" % (len(pushes), len(lets)))
+    pb, pt = pushes[0]
+    result = {(r, tuple(p)) for (r, p) in body.trace_operand(pt["args"][0])}
+    if not all(r[0] == "agg" for (r, p) in result):
+        raise AnchorMissing("E8: the environment mux_envs pushes scopes on is not a fresh one")
+
+    def muxed_value(lt):
+        """None if the value bound by this call is a fresh vector of push_mux(condition, a-bit, b-bit), else (message, span)"""
+        val = {(r, tuple(p)) for (r, p) in body.trace_operand(lt["args"][2])}
+        fresh = val and all(r[0] == "call" and mir.last_seg(r[2] or "") in ("from_elem", "with_capacity", "new") for (r, p) in val)
+        if not fresh:
+            return ("the value bound in the result is not a fresh vector filled with push_mux results (it is copied from an operand)", lt["sp"])
+        stores = []
+        for b, t in body.calls():
+            if mir.last_seg(mir.callee(t) or "") in ("index_mut", "push") and {(r, tuple(p)) for (r, p) in body.trace_operand(t["args"][0])} == val:
+                if mir.last_seg(mir.callee(t)) == "push":
+                    stores.append((t["args"][1], t["sp"]))
+                else:
+                    d = t["dest"]["l"]
+                    for blk in body.blocks:
+                        for st in blk["stmts"]:
+                            if st["k"] == "assign" and st["place"]["l"] == d and any(e["k"] == "deref" for e in st["place"]["p"]) and st["rv"]["k"] == "use":
+                                stores.append((st["rv"]["op"], st["sp"]))
+        if not stores:
+            return ("the vector bound in the result is never filled", lt["sp"])
+        for (op, sp) in stores:
+            good = False
+            for (r, p) in body.trace_operand(op):
+                if r[0] == "call" and mir.callee(body.term(r[1])) == C02.PUSH_MUX:
+                    mt = body.term(r[1])
+                    sel = any(rr == ("arg", 2) and not pp for (rr, pp) in body.trace_operand(mt["args"][1]))
+                    a_ok = any(rr == ("arg", 3) for (rr, pp) in body.deep_sources(mt["args"][2], 3))
+                    b_ok = any(rr == ("arg", 4) for (rr, pp) in body.deep_sources(mt["args"][3], 3))
+                    a_not_b = not any(rr == ("arg", 4) for (rr, pp) in body.trace_operand(mt["args"][2])) and not any(rr == ("arg", 3) for (rr, pp) in body.trace_operand(mt["args"][3]))
+                    good = sel and a_ok and b_ok and a_not_b
+            if not good:
+                return ("a bit of the merged binding is not push_mux(condition, bit of a's binding, bit of b's binding) in this order", sp)
+        return None
+    good_lets = set()
+    for lb, lt in lets:
+        if {(r, tuple(p)) for (r, p) in body.trace_operand(lt["args"][0])} != result:
+            res.bad(Finding("E8", MUX_ENVS, "binding goes into a different environment", "let_in_current_scope does not act on the fresh result environment", lt["sp"]))
+            continue
+        why = muxed_value(lt)
+        if why:
+            res.bad(Finding("E8", MUX_ENVS, "a binding is merged without the condition", why[0], why[1]))
+        else:
+            good_lets.add(lb)
+            res.ok({"clause": "bits", "site": "line %d" % lt["sp"][1], "verdict": "bound value = fresh vector of push_mux(condition, a[i], b[i])"})
+    if not good_lets:
+        return res
+    loops = body.loops()
+    scope_lps = [l for l in loops if pb in l["body"]]
+    if not scope_lps:
+        raise AnchorMissing("E8: mux_envs does not push scopes in a loop")
+    scope_lp = min(scope_lps, key=lambda l: len(l["body"]))
+    bind_lps = [l for l in loops if (good_lets & l["body"]) and pb not in l["body"]]
+    if not bind_lps:
+        raise AnchorMissing("E8: the binding loop of mux_envs is not nested in the scope loop")
+    bind_lp = max(bind_lps, key=lambda l: len(l["body"]))
+
+    def within(lp):
+        return lambda b: [x for x in body.succs(b) if x in lp["body"] and not body.blocks[x]["cleanup"]]
+
+    def latches(lp):
+        return [b for b in lp["body"] if lp["header"] in body.succs(b)]
+    w1 = body.path(scope_lp["header"], latches(scope_lp), blocked={pb}, succ=within(scope_lp))
+    w2 = body.path(scope_lp["header"], latches(scope_lp), blocked={bind_lp["header"]}, succ=within(scope_lp))
+    if w1 or w2:
+        res.bad(Finding("E8", MUX_ENVS, "a scope can be skipped", "an iteration of the scope loop can end without re-creating the scope (Env::push) and visiting its bindings (blocks %s): "
+                        "assignments to the variables of that scope ignore the condition" % (w1 or w2), pt["sp"]))
+    else:
+        res.ok({"clause": "scopes", "verdict": "every iteration pushes a scope on the result and runs the binding loop"})
+    w3 = body.path(bind_lp["header"], latches(bind_lp), blocked=good_lets, succ=within(bind_lp))
+    if w3:
+        res.bad(Finding("E8", MUX_ENVS, "a binding can be skipped", "an iteration of the binding loop can end without binding the muxed value in the result (blocks %s)" % w3, body.term(sorted(good_lets)[0])["sp"]))
+    else:
+        res.ok({"clause": "bindings", "verdict": "every binding of the first environment is re-bound in the result"})
+    return res
 
 
 def rule_e6(ctx):
@@ -447,4 +536,4 @@ def rule_e7(ctx):
 
 
 def run(ctx):
-    return ctx.run_rules([rule_e1, rule_e2, rule_e3, rule_e4, rule_e5, rule_e6, rule_e7])
+    return ctx.run_rules([rule_e1, rule_e2, rule_e3, rule_e4, rule_e5, rule_e6, rule_e7, rule_e8])
